@@ -343,6 +343,26 @@ def c19_large_twins():
             run_case("large-twins:good-data", dict(size=size, k=k, f="apply_serialized"), lambda: jsonlogic_rs.apply_serialized('{"var":"cat.0"}', good), '{"var":"cat.0"}', good)
 
 
+def c19_long_floats():
+    """floats whose shortest text has 16-17 significant digits (a fixed pseudo-random corpus): the extension reads
+    number texts exactly as the library does, so both compute with the same doubles"""
+    x = 0x9e3779b97f4a7c15
+    vals = []
+    for i in range(400):
+        x = (x * 6364136223846793005 + 1442695040888963407) % (1 << 64)
+        m = x / float(1 << 64)
+        vals.append([m * 1000.0, m * 1e13, m, m * 1e-7, -m * 99.0, (m + 1.0) * 1e21][i % 6])
+    vals += [985.6906946328695, 212.91890726713459, 479.60756426982596, 92.42132512813595, 30620278683873.805, 0.9999999999999999]
+    for i, f in enumerate(vals):
+        if i % nshards != shard:
+            continue
+        d = {"float": repr(f)}
+        run_case("long-float:apply(rule)", dict(d, f="apply"), lambda: jsonlogic_rs.apply(f), json.dumps(f), "null")
+        run_case("long-float:apply(data)", dict(d, f="apply"), lambda: jsonlogic_rs.apply({"var": "a"}, {"a": f, "b": [f]}), '{"var": "a"}', json.dumps({"a": f, "b": [f]}))
+        run_case("long-float:apply(compare)", dict(d, f="apply"), lambda: jsonlogic_rs.apply({"===": [{"var": "a"}, f]}, {"a": f}), json.dumps({"===": [{"var": "a"}, f]}), json.dumps({"a": f}))
+        run_case("long-float:apply_serialized", dict(d, f="apply_serialized"), lambda: jsonlogic_rs.apply_serialized('{"*":[1,%r]}' % f), '{"*":[1,%r]}' % f, "null")
+
+
 def c19_long_errors():
     """library errors that quote long non-ASCII content must still be ValueError"""
     units = ["é", "€", "水", "😀", "z"]
@@ -569,6 +589,7 @@ try:
         c19_text_fidelity()
         c19_padding()
         c19_large_twins()
+        c19_long_floats()
     else:
         c01()
 finally:
